@@ -5,7 +5,10 @@ import json
 import random
 
 SDL = """
-type Query { a: Int  b(x: Int, l: [Int]): String  o: Obj  i: I  u: U  os: [Obj]  r(req: Int!): Int  d(nd: Int! = 1, nl: [Int!]): Int  is: [I] }
+type Query { a: Int  b(x: Int, l: [Int]): String  o: Obj  i: I  u: U  os: [Obj]  r(req: Int!): Int  d(nd: Int! = 1, nl: [Int!]): Int  is: [I]  f(in: In, ins: [In!]): Int }
+type Mutation { m(x: Int): Int  o: Obj }
+type Subscription { s1: Int  s2(x: Int): Int  o: Obj }
+input In { x: Int = 3  y: Int!  n: In  l: [Int!] }
 type Obj implements I { a: Int  o: Obj  s: String  b(x: Int): String  c(p: Int = 1, q: Int = 5): Int }
 type Obj2 implements I { a: Int  s: Int!  n: String  c(p: Int = 2): Int }
 interface I { a: Int  c(p: Int = 1): Int }
@@ -13,14 +16,16 @@ union U = Obj | Obj2
 enum E { A B }
 """
 FIELDS = {
-    "Query": {"a": ("Int", {}), "b": ("String", {"x": "Int", "l": "[Int]"}), "o": ("Obj", {}), "i": ("I", {}), "u": ("U", {}), "os": ("Obj", {}), "r": ("Int", {"req": "Int!"}), "d": ("Int", {"nd": "Int! = 1", "nl": "[Int!]"}), "is": ("I", {})},
+    "Query": {"a": ("Int", {}), "b": ("String", {"x": "Int", "l": "[Int]"}), "o": ("Obj", {}), "i": ("I", {}), "u": ("U", {}), "os": ("Obj", {}), "r": ("Int", {"req": "Int!"}), "d": ("Int", {"nd": "Int! = 1", "nl": "[Int!]"}), "is": ("I", {}), "f": ("Int", {"in": "In", "ins": "[In!]"})},
+    "Mutation": {"m": ("Int", {"x": "Int"}), "o": ("Obj", {})},
+    "Subscription": {"s1": ("Int", {}), "s2": ("Int", {"x": "Int"}), "o": ("Obj", {})},
     "Obj": {"a": ("Int", {}), "o": ("Obj", {}), "s": ("String", {}), "b": ("String", {"x": "Int"}), "c": ("Int", {"p": "Int = 1", "q": "Int = 5"})},
     "Obj2": {"a": ("Int", {}), "s": ("Int", {}), "n": ("String", {}), "c": ("Int", {"p": "Int = 2"})},
     "I": {"a": ("Int", {}), "c": ("Int", {"p": "Int = 1"})},
     "U": {},
 }
-COMPOSITE = {"Query", "Obj", "Obj2", "I", "U"}
-POSSIBLE = {"I": {"Obj", "Obj2"}, "U": {"Obj", "Obj2"}, "Query": {"Query"}, "Obj": {"Obj"}, "Obj2": {"Obj2"}}
+COMPOSITE = {"Query", "Mutation", "Subscription", "Obj", "Obj2", "I", "U"}
+POSSIBLE = {"I": {"Obj", "Obj2"}, "U": {"Obj", "Obj2"}, "Query": {"Query"}, "Mutation": {"Mutation"}, "Subscription": {"Subscription"}, "Obj": {"Obj"}, "Obj2": {"Obj2"}}
 
 
 def named(n):
@@ -80,6 +85,34 @@ def gen_value(rng, vars_):
     return {"k": "null"}
 
 
+def gen_obj(rng, vars_, depth=1):
+    """Mostly valid literal of  input In { x: Int = 3  y: Int!  n: In  l: [Int!] }."""
+    fs = []
+    r = rng.random()
+    if r > 0.08:
+        fs.append({"key": "y", "val": {"k": "var", "n": rng.choice(vars_)} if vars_ and rng.random() < 0.3 else {"k": "int", "v": "1"}})
+    if rng.random() < 0.4:
+        fs.append({"key": "x", "val": gen_value(rng, vars_)})
+    if rng.random() < 0.2 and depth > 0:
+        fs.append({"key": "n", "val": gen_obj(rng, vars_, depth - 1)})
+    if rng.random() < 0.2:
+        fs.append({"key": "l", "val": {"k": "list", "vs": [rng.choice([{"k": "int", "v": "1"}, {"k": "null"}] + ([{"k": "var", "n": rng.choice(vars_)}] if vars_ else []))]}})
+    if rng.random() < 0.04:
+        fs.append({"key": "zz", "val": {"k": "int", "v": "1"}})
+    if rng.random() < 0.04 and fs:
+        fs.append(copy.deepcopy(fs[0]))
+    rng.shuffle(fs)
+    return {"k": "obj", "fs": fs}
+
+
+def gen_arg_value(rng, atype, vars_):
+    if atype.startswith("In"):
+        return gen_obj(rng, vars_) if rng.random() < 0.85 else gen_value(rng, vars_)
+    if atype.startswith("[In"):
+        return {"k": "list", "vs": [gen_obj(rng, vars_) for _ in range(rng.randint(0, 2))]} if rng.random() < 0.7 else gen_obj(rng, vars_)
+    return gen_value(rng, vars_)
+
+
 def gen_sel(rng, pt, depth, frags, vars_, budget, bvars=()):
     """Mostly type-correct selection list for parent type pt."""
     out = []
@@ -106,7 +139,7 @@ def gen_sel(rng, pt, depth, frags, vars_, budget, bvars=()):
             args = []
             for an in fargs:
                 if rng.random() < 0.6 or fargs[an].endswith("!"):  # (an argument with a default does not end with "!")
-                    args.append({"name": an, "value": gen_value(rng, vars_)})
+                    args.append({"name": an, "value": gen_arg_value(rng, fargs[an], vars_)})
             if ftype in COMPOSITE:
                 sub = gen_sel(rng, ftype, depth - 1, frags, vars_, budget, bvars) if depth > 0 else [field("__typename")]
                 out.append(field(fname, alias, args, sub or [field("__typename")], gen_dirs(rng, bvars)))
@@ -125,7 +158,7 @@ def gen_sel(rng, pt, depth, frags, vars_, budget, bvars=()):
 
 NONE = {"k": "none"}
 BOOLT = [named("Boolean"), {"k": "nn", "of": named("Boolean")}, {"k": "nn", "of": named("Boolean")}]
-VTYPES = [named("Int")] * 6 + [{"k": "nn", "of": named("Int")}, {"k": "list", "of": named("Int")}, {"k": "list", "of": {"k": "nn", "of": named("Int")}}, named("String")]
+VTYPES = [named("In")] + [named("Int")] * 6 + [{"k": "nn", "of": named("Int")}, {"k": "list", "of": named("Int")}, {"k": "list", "of": {"k": "nn", "of": named("Int")}}, named("String")]
 
 
 def vardef(name, type_=None, default=None):
@@ -141,6 +174,13 @@ def gen_vardef(rng, name):
     elif r < 0.2:
         d = {"k": "null"}
     return vardef(name, t, d)
+
+
+def strip_root_dirs(sel):
+    for x in sel:
+        x["dirs"] = []
+        if x["k"] == "inline":
+            strip_root_dirs(x["sel"])
 
 
 def gen_bvardef(rng, name):
@@ -161,11 +201,23 @@ def gen_doc(rng):
     nops = rng.choice([1, 1, 1, 2])
     for i in range(nops):
         name = "" if (nops == 1 and rng.random() < 0.5) else "Op%d" % (i + 1)
-        defs.append({"k": "op", "name": name, "op": "query", "vars": [gen_vardef(rng, v) for v in vars_] + [gen_bvardef(rng, v) for v in bvars], "on": "",
-                     "sel": gen_sel(rng, "Query", 2, fnames, vars_, budget, bvars)})
+        kind = rng.choice(["query"] * 8 + ["mutation", "subscription"])
+        root = {"query": "Query", "mutation": "Mutation", "subscription": "Subscription"}[kind]
+        sel = gen_sel(rng, root, 2, fnames, vars_, budget, bvars)
+        if kind == "subscription":
+            if rng.random() < 0.7:
+                sel = sel[:1]
+            # whether @skip / @include count when the root fields of a subscription are counted is contested between specification
+            # versions (DESIGN Appendix B.22): root-level selections of subscriptions carry no directives
+            strip_root_dirs(sel)
+        defs.append({"k": "op", "name": name, "op": kind, "vars": [gen_vardef(rng, v) for v in vars_] + [gen_bvardef(rng, v) for v in bvars], "on": "", "sel": sel})
     for fn in fnames:
-        on = rng.choice(["Obj", "Obj2", "I", "U", "Query"])
+        on = rng.choice(["Obj", "Obj2", "I", "U", "Query", "Query", "Subscription"])
         defs.append({"k": "frag", "name": fn, "op": "", "vars": [], "on": on, "sel": gen_sel(rng, on, 1, [x for x in fnames if x != fn] if rng.random() < 0.8 else fnames, vars_, budget, bvars)})
+    if any(d["k"] == "op" and d["op"] == "subscription" for d in defs):
+        for d in defs:
+            if d["k"] == "frag" and d["on"] == "Subscription":
+                strip_root_dirs(d["sel"])
     rng.shuffle(defs)
     return {"defs": defs}
 
@@ -199,7 +251,10 @@ INJECTIONS = ["unknown-field", "leaf-with-selection", "composite-without-selecti
               "skip-true-field", "include-false-spread", "skip-variable", "unknown-directive", "duplicate-directive", "directive-unknown-argument",
               "directive-missing-if", "directive-int-if", "directive-undefined-variable", "directive-int-variable",
               "repeated-spread-undefined-variable", "repeated-spread-missing-if", "repeated-spread-int-if", "repeated-inline-unknown-field",
-              "dup-field-args-reordered", "dup-field-args-reordered-conflict"]
+              "dup-field-args-reordered", "dup-field-args-reordered-conflict",
+              "input-object-valid", "duplicate-input-key", "unknown-input-field", "missing-required-input-field", "input-field-wrong-type",
+              "nullable-var-required-input-field", "nullable-var-defaulted-input-field", "nested-duplicate-input-key", "input-var-default-object",
+              "subscription-two-fields", "subscription-fragment-two-fields", "subscription-same-key-twice", "subscription-inline-one-field", "mutation-valid", "cycle-behind-shared-fragment", "shared-fragment-no-cycle"]
 
 
 def normalise(doc):
@@ -378,6 +433,40 @@ def _inject(doc, label, rng):
         doc["defs"].append({"k": "frag", "name": "RsIn", "op": "", "vars": [], "on": "Obj", "sel": [field("s", "rss")]})
         doc["defs"].append({"k": "frag", "name": "RsOut", "op": "", "vars": [], "on": "Obj", "sel": [spread("RsIn"), field("a", "rsa"), spread("RsIn", [bad])]})
         op["sel"].append(field("o", "rs", [], [spread("RsOut")]))
+    elif label in ("input-object-valid", "duplicate-input-key", "unknown-input-field", "missing-required-input-field", "input-field-wrong-type",
+                   "nullable-var-required-input-field", "nullable-var-defaulted-input-field", "nested-duplicate-input-key"):
+        one = {"k": "int", "v": "1"}
+        fs = {"input-object-valid": [("y", one), ("x", {"k": "null"}), ("l", {"k": "list", "vs": [one]}), ("n", {"k": "obj", "fs": [{"key": "y", "val": one}]})],
+              "duplicate-input-key": [("y", one), ("x", one), ("x", one)],
+              "unknown-input-field": [("y", one), ("zz", one)],
+              "missing-required-input-field": [("x", one)],
+              "input-field-wrong-type": [("y", {"k": "list", "vs": [one]})],
+              "nullable-var-required-input-field": [("y", {"k": "var", "n": "iv"})],
+              "nullable-var-defaulted-input-field": [("y", one), ("x", {"k": "var", "n": "iv"})],
+              "nested-duplicate-input-key": [("y", one), ("n", {"k": "obj", "fs": [{"key": "y", "val": one}, {"key": "y", "val": one}]})]}[label]
+        if "var" in label:
+            op["vars"].append(vardef("iv"))
+        op["sel"].append(field("f", "iof", [{"name": "in", "value": {"k": "obj", "fs": [{"key": k, "val": v} for k, v in fs]}}]))
+    elif label == "input-var-default-object":
+        op["vars"].append(vardef("ivd", named("In"), {"k": "obj", "fs": [{"key": "y", "val": {"k": "int", "v": "1"}}]}))
+        op["sel"].append(field("f", "ivdf", [{"name": "in", "value": {"k": "var", "n": "ivd"}}]))
+    elif label.startswith("subscription-") or label == "mutation-valid":
+        sel = {"subscription-two-fields": [field("s1"), field("s2")],
+               "subscription-fragment-two-fields": [spread("SubF")],
+               "subscription-same-key-twice": [field("s1"), field("s1")],
+               "subscription-inline-one-field": [inline("Subscription", [field("s1", "only")])],
+               "mutation-valid": [field("m", "", [{"name": "x", "value": {"k": "int", "v": "1"}}]), field("o", "", [], [field("a")])]}[label]
+        if label == "subscription-fragment-two-fields":
+            doc["defs"].append({"k": "frag", "name": "SubF", "op": "", "vars": [], "on": "Subscription", "sel": [field("s1"), field("s2")]})
+        doc["defs"].append({"k": "op", "name": "Extra", "op": "mutation" if label == "mutation-valid" else "subscription", "vars": [], "on": "", "sel": sel})
+        if not op["name"]:
+            op["name"] = "Main"
+    elif label in ("cycle-behind-shared-fragment", "shared-fragment-no-cycle"):
+        def fr(n, sel):
+            return {"k": "frag", "name": n, "op": "", "vars": [], "on": "Obj", "sel": sel}
+        doc["defs"] += [fr("CsA", [spread("CsB"), spread("CsC"), spread("CsD")]), fr("CsB", [spread("CsC")]), fr("CsC", [field("a")]),
+                        fr("CsD", [field("o", "", [], [spread("CsA")])] if label.startswith("cycle") else [field("s")])]
+        op["sel"].append(field("o", "cs", [], [spread("CsA")]))
     elif label == "repeated-inline-unknown-field":
         op["sel"].append(field("o", "riu", [], [inline("Obj", [field("a")]), inline("Obj", [field("nope")])]))
     elif label == "bad-variable-default":
@@ -518,7 +607,7 @@ def render(doc):
     for d in doc["defs"]:
         if d["k"] == "op":
             vs = ("(%s)" % ", ".join("$%s: %s%s" % (v["name"], tsdl(v["type"]), "" if v["def"]["k"] == "none" else " = " + rval(v["def"])) for v in d["vars"])) if d["vars"] else ""
-            head = ("query %s%s " % (d["name"], vs)) if (d["name"] or vs) else ""
+            head = ("%s %s%s " % (d["op"], d["name"], vs)) if (d["name"] or vs or d["op"] != "query") else ""
             parts.append("%s{ %s }" % (head, rsel(d["sel"])))
         else:
             parts.append("fragment %s on %s { %s }" % (d["name"], d["on"], rsel(d["sel"])))
